@@ -96,4 +96,60 @@ Proof.
   intros R Hb evs l Hrun r sr k ot ports sr' He Hs Ha d Hd.
   eapply later_outputs_good; eauto. apply reached_good; assumption. eapply nth_error_In; eauto.
 Qed.
+
+(* C10 / C16 over whole runs: the lazy-stepping (and the async-requests) bound does not only hold at the BEGIN: once i has
+   begun its step at t, a consumer j it feeds never again has an outstanding (queued or in-flight) step before act t d,
+   however the run continues - j's progress had reached act t d, progress never goes back, and every outstanding step
+   lies at or after its simulator's progress *)
+Lemma bound_persists_core (sel : static -> nat -> list (nat * interval)) s i t m s' sr :
+  (forall j d, In (j,d) (sel st i) -> tle (act t d) (prog (s j)) = true) ->
+  Good st s -> apply st s (EvBegin i t m) = Ok s' -> Good st sr -> prog_le s' sr ->
+  forall j d c, In (j,d) (sel st i) -> In c (cands (sr j)) -> tle (act t d) c = true.
+Proof.
+  intros Hguard G Hb Gr M1 j d c Hj Hc.
+  pose proof (prog_le_trans _ _ _ (prog_le_step s _ s' G Hb) M1 j) as Mj.
+  destruct Gr as ([[_ HLr] _] & _ & _). destruct (HLr j) as (_ & Bj & _).
+  eapply tle_trans; [apply (Hguard j d Hj)|]. eapply tle_trans; [exact Mj|apply Bj; exact Hc].
+Qed.
+Theorem lazy_bound_persists s i t m s' sr : lazy st = true -> Good st s -> apply st s (EvBegin i t m) = Ok s' ->
+  Good st sr -> prog_le s' sr ->
+  forall j d c, In (j,d) (succ_lazy st i) -> In c (cands (sr j)) -> tle (act t d) c = true.
+Proof.
+  intros HL G Hb. apply (bound_persists_core succ_lazy s i t m s'); auto.
+  intros j d Hj. destruct (begin_guards st s i t m s' G Hb) as [_ D].
+  unfold deps_ok in D. rewrite HL in D. apply andb_true_iff in D as [_ D].
+  rewrite forallb_forall in D. exact (D (j,d) Hj).
+Qed.
+Theorem async_bound_persists s i t m s' sr : Good st s -> apply st s (EvBegin i t m) = Ok s' ->
+  Good st sr -> prog_le s' sr ->
+  forall j d c, In (j,d) (succ_wait st i) -> In c (cands (sr j)) -> tle (act t d) c = true.
+Proof.
+  intros G Hb. apply (bound_persists_core succ_wait s i t m s'); auto.
+  intros j d Hj. destruct (begin_guards st s i t m s' G Hb) as [_ D].
+  unfold deps_ok in D. apply andb_true_iff in D as [D _]. apply andb_true_iff in D as [_ D].
+  rewrite forallb_forall in D. exact (D (j,d) Hj).
+Qed.
+(* along a run *)
+Theorem lazy_bound_over_runs s i t m s' : lazy st = true -> reached st s -> apply st s (EvBegin i t m) = Ok s' ->
+  forall evs l, run st s' evs = Ok l -> forall sr, In sr (s' :: l) ->
+  forall j d c, In (j,d) (succ_lazy st i) -> In c (cands (sr j)) -> tle (act t d) c = true.
+Proof.
+  intros HL R Hb evs l Hrun sr Hsr.
+  pose proof (reached_good st OK s R) as G. pose proof (good_step st OK _ _ _ G Hb) as G'.
+  assert (Gr : Good st sr) by (destruct Hsr as [<-|Hin]; [exact G'|eapply good_run; eauto]).
+  assert (M1 : prog_le s' sr).
+  { destruct Hsr as [<-|Hin]; [apply prog_le_refl|]. destruct G' as (I' & W' & _). eapply (progress_monotone st OK evs); eauto. }
+  exact (lazy_bound_persists s i t m s' sr HL G Hb Gr M1).
+Qed.
+Theorem async_bound_over_runs s i t m s' : reached st s -> apply st s (EvBegin i t m) = Ok s' ->
+  forall evs l, run st s' evs = Ok l -> forall sr, In sr (s' :: l) ->
+  forall j d c, In (j,d) (succ_wait st i) -> In c (cands (sr j)) -> tle (act t d) c = true.
+Proof.
+  intros R Hb evs l Hrun sr Hsr.
+  pose proof (reached_good st OK s R) as G. pose proof (good_step st OK _ _ _ G Hb) as G'.
+  assert (Gr : Good st sr) by (destruct Hsr as [<-|Hin]; [exact G'|eapply good_run; eauto]).
+  assert (M1 : prog_le s' sr).
+  { destruct Hsr as [<-|Hin]; [apply prog_le_refl|]. destruct G' as (I' & W' & _). eapply (progress_monotone st OK evs); eauto. }
+  exact (async_bound_persists s i t m s' sr G Hb Gr M1).
+Qed.
 End L.
